@@ -11,7 +11,7 @@ use crate::fields::{field_values, subset_of, FIELD_NAMES, PATH_REWRITE_NEEDS};
 use crate::mon_c01::check_partition;
 use crate::report::{clip, guard, Report};
 use crate::rng::{fnv, Rng};
-use crate::scen::{build_world, mode_name, observe, Tok, MODES};
+use crate::scen::{mode_name, observe, Tok, MODES};
 use crate::textgen;
 use crate::Ctx;
 
@@ -26,7 +26,14 @@ pub fn run(ctx: &Ctx, rep: &mut Report) {
         rep.progress_idx(wi, "C11 world");
         let dopts = DictOpts { max_entries: 24, ..DictOpts::default() };
         let path_rewrite = wi % 2 == 1;
-        let world = match guard(|| build_world(&mut rng, &dopts, None, path_rewrite, Place::Owned)) {
+        let world = match guard(|| {
+            let matrix = crate::dictgen::gen_matrix(&mut rng, &dopts);
+            let mut sys = crate::dictgen::gen_system(&mut rng, &dopts, &matrix);
+            // strings across the 1-byte / 2-byte length prefix boundary: skipping such a field is its own code path
+            crate::mon_c05::boundary_rows(&mut rng, &mut sys, matrix.nid() as i64, false);
+            let p = crate::scen::PluginOpts::random(&mut rng, &matrix, path_rewrite);
+            crate::scen::build_world_from(&mut rng, &dopts, matrix, sys, p, Place::Owned)
+        }) {
             Ok(Ok(w)) => w,
             Ok(Err(e)) => {
                 rep.count("worlds_rejected", 1);
@@ -79,6 +86,8 @@ pub fn run(ctx: &Ctx, rep: &mut Report) {
         }
         // (2) tokenization under subsets, both call orders
         let keys = world.keys();
+        // long-lived tokenizers + one reused list per mode: the field request changes between analyses
+        let mut live: Vec<Tok> = MODES.iter().map(|m| Tok::new(&world.dict, *m)).collect();
         for ti in 0..40 {
             let text = textgen::text_from_keys(&mut rng, &keys, 8);
             let mode = MODES[rng.below(3)];
@@ -90,13 +99,22 @@ pub fn run(ctx: &Ctx, rep: &mut Report) {
             let order = rng.chance(1, 2);
             rep.eval();
             let mut full_t = Tok::new(&world.dict, mode);
-            let mut sub_t = Tok::new(&world.dict, if order { Mode::C } else { mode });
-            if order {
-                sub_t.tok.set_subset(subset_of(bits));
-                sub_t.tok.set_mode(mode);
+            let use_live = ti % 2 == 1;
+            let mut fresh_t = Tok::new(&world.dict, if order { Mode::C } else { mode });
+            let mi = MODES.iter().position(|m| *m == mode).unwrap();
+            let sub_t: &mut Tok = if use_live {
+                live[mi].tok.set_subset(subset_of(bits));
+                rep.count("analyses_on_long_lived_tokenizers", 1);
+                &mut live[mi]
             } else {
-                sub_t.tok.set_subset(subset_of(bits));
-            }
+                if order {
+                    fresh_t.tok.set_subset(subset_of(bits));
+                    fresh_t.tok.set_mode(mode);
+                } else {
+                    fresh_t.tok.set_subset(subset_of(bits));
+                }
+                &mut fresh_t
+            };
             let scen = || json!({"world_index": wi, "text_index": ti, "text": text, "mode": mode_name(mode), "subset_bits": bits, "set_subset_before_set_mode": order, "world": world.describe(true)});
             let rf = guard(|| full_t.run(&text));
             let rs = guard(|| sub_t.run(&text));
@@ -105,6 +123,9 @@ pub fn run(ctx: &Ctx, rep: &mut Report) {
                 (Ok(Err(_)), Ok(Err(_))) => continue,
                 (Err(p), _) | (_, Err(p)) => {
                     rep.skipped_panic(&p, json!({"text": text, "subset_bits": bits}));
+                    if use_live {
+                        live[mi] = Tok::new(&world.dict, mode);
+                    }
                     continue;
                 }
                 _ => {
